@@ -541,17 +541,42 @@ def _run(ctx, res):
     for idx, model_out in mism2:
         res.mismatches.append(dict(case=dict(listen=lmeta[idx][0]), impl=lmeta[idx][1], model=model_out))
 
+    # an unauthenticated client that keeps STREAMING bytes without ever completing a message (full-size reads
+    # included) must not hold the single listener beyond the receive timeout: oracle only, free-running clock
+    for trecv in (2, 3):
+        for nrecv in (16, 2048):
+            for chunk in (nrecv, 2 * nrecv, 7):
+                for dt in (0.2, trecv - 0.5):
+                    r = S.streaming_junk_probe(trecv, nrecv, chunk, dt)
+                    res.note_case(("stream", trecv, nrecv, chunk, dt), True)
+                    res.count("streaming_junk_clients")
+                    sc = dict(streaming=True, trecv=trecv, nrecv=nrecv, chunk=chunk, dt=dt)
+                    if r["hung"] or r["finish"] > trecv + 1.0 + 1e-9 or not r["valid_queued"]:
+                        res.failures.append(dict(
+                            signature="streaming-client-holds-listener",
+                            what="an unauthenticated client delivering %d bytes every %.1f s (recv_bytes=%d) %s "
+                                 "(timeout_receive=%d); valid message afterwards served: %s"
+                                 % (chunk, dt, nrecv, "is never given up" if r["hung"] else
+                                    "holds the listener for %.2f s" % r["finish"], trecv, r["valid_queued"]),
+                            case=sc, detail=r))
+                    elif not r["peers_unchanged_by_junk"]:
+                        res.failures.append(dict(signature="unauthenticated-stream-changed-state",
+                                                 what="peer state or queue changed by junk bytes", case=sc, detail=r))
+
     res.samples = [dict(why=c["why"], expect=c["expect"], bytes=len(c["bytes"]) // 2, addr=c["addr"])
                    for c in cases[:2] + cases[len(cases) // 2:len(cases) // 2 + 2] + cases[-2:]]
     res.extra["exhaustive_scope"] = "every single-bit flip%s and every truncation of one PING and one SYNC wire message" % (
         " (SYNC: every second bit)" if ctx.quick else "")
     res.exhaustive = True
-    res.failures.sort(key=lambda f: (len(f["case"].get("bytes", "")), f["signature"]))
+    res.failures.sort(key=lambda f: (len(f["case"].get("bytes", "") or "x" * 100000), f["signature"]))
 
 
 # --------------------------------------------------------------------------------------------- replay
 def replay(obj):
     case = obj.get("case") or {}
+    if case.get("streaming"):
+        import pC10
+        return pC10.replay_stream(case)
     if "bytes" not in case:
         print(obj)
         return 0
